@@ -72,6 +72,17 @@ func (e *Engine) emitLemmas(t *Term) {
 			e.solver.Assert(st.Implies(pos, st.And(st.Cmp(OpSLe, z, t), st.Cmp(OpSLe, t, a))))
 			e.solver.Assert(st.Implies(st.And(pos, st.Cmp(OpSLe, b, a)), st.Cmp(OpSLe, st.Const(t.W, 1), t)))
 			e.solver.Assert(st.Implies(st.And(pos, st.Cmp(OpSLt, a, b)), st.Eq(t, z)))
+		case OpMul:
+			a, b := t.Args[0], t.Args[1]
+			if t.W == 64 && !a.IsConst() && !b.IsConst() {
+				z := st.Const(64, 0)
+				one := st.Const(64, 1)
+				lim := st.Const(64, 1<<31)
+				small := st.And(st.Cmp(OpSLe, z, a), st.Cmp(OpSLe, a, lim), st.Cmp(OpSLe, z, b), st.Cmp(OpSLe, b, lim))
+				e.solver.Assert(st.Implies(small, st.And(st.Cmp(OpSLe, z, t), st.Cmp(OpSLe, t, st.Const(64, 1<<62)),
+					st.Implies(st.Cmp(OpSLe, one, b), st.Cmp(OpSLe, a, t)),
+					st.Implies(st.Cmp(OpSLe, one, a), st.Cmp(OpSLe, b, t)))))
+			}
 		case OpURem:
 			a, b := t.Args[0], t.Args[1]
 			nz := st.Not(st.Eq(b, st.Const(b.W, 0)))
